@@ -33,3 +33,21 @@ Definition no_collision (fs : str -> option (list N)) (prog : list element_value
     prog = pre ++ e :: post -> pass1 fs (mkP1 None [] []) pre = Some s0 -> pass1_step fs s0 e = Some s1 ->
     (forall x, is_addr e = true -> p_cur s1 = Some x -> ~ covered (p_items s0) x) /\
     (forall a it x, p_items s1 = (a, it) :: p_items s0 -> a <= x -> x < a + item_size it -> ~ covered (p_items s0) x).
+
+(* ------------------------------------------------------------------ executable form of no_collision (sound: Asm/LayoutCheck.v) *)
+Definition coveredb (items : list (N * item)) (x : N) : bool :=
+  existsb (fun p => (fst p <=? x) && (x <? fst p + item_size (snd p))) items.
+Definition addrs (a n : N) : list N := map (fun i => a + N.of_nat i) (seq 0 (N.to_nat n)).
+Definition nc_step_ok (s0 : p1) (e : element_value) (s1 : p1) : bool :=
+  (if is_addr e then match p_cur s1 with Some x => negb (coveredb (p_items s0) x) | None => true end else true) &&
+  match p_items s1 with
+  | (a, it) :: r =>
+      if Nat.eqb (List.length r) (List.length (p_items s0))
+      then forallb (fun x => negb (coveredb (p_items s0) x)) (addrs a (item_size it)) else true
+  | [] => true
+  end.
+Fixpoint nc_check (fs : str -> option (list N)) (s : p1) (l : list element_value) : bool :=
+  match l with
+  | [] => true
+  | e :: r => match pass1_step fs s e with Some s1 => nc_step_ok s e s1 && nc_check fs s1 r | None => true end
+  end.
